@@ -572,8 +572,9 @@ def check(run):
     run.extra['phase_seconds'] = phases
     return run.finish(level='proof',
         rule='a case = one concrete spelling (string) of a generated tree; distinct by string; every spelling is evaluated on a document and compared with the other spellings of its tree',
-        assumptions=['model of the nom combinators (Model/Peg.v) tied by the prod and xparse correspondences only',
-                     'evaluation equality of spellings is established by the search on the real query(), not by proof (the evaluator model belongs to C05)'])
+        assumptions=['the theorems are about the model: G_xpath regenerated by T2 + Model/Peg.v (semantics of the nom combinators) + Model/ParseActionsXPath.v; tied to the crates by the prod and xparse correspondences only',
+                     'evaluation equality of spellings (spelling_irrelevant) is established by the search on the real query(), not by proof (the evaluator model belongs to C05)',
+                     'parse_spell excludes function names that equal a NodeType up to letter case (known finding C08-fname-case, residue of the D28 repair)'])
 
 def replay(path):
     d = json.load(open(path))
